@@ -31,6 +31,7 @@ type Instance struct {
 	Fn      string
 	Params  map[string]int
 	MaxAlloc int64
+	Redirects map[string]string // extra redirects for this instance only
 	SymOnly  bool // depends on stand-ins that exist only under symbolic execution: no native replay / validation
 }
 
@@ -198,9 +199,6 @@ func runProperty(p *Property, tier string, seed, workers int, only string, norep
 		return 2
 	}
 	loadTime := time.Since(tLoad)
-	for k, v := range p.Redirects {
-		eng.Redirects[k] = v
-	}
 	eng.TimeoutMs = 30000
 	if tier == "thorough" {
 		eng.TimeoutMs = 60000
@@ -246,11 +244,12 @@ func runProperty(p *Property, tier string, seed, workers int, only string, norep
 		if in.MaxAlloc > 0 {
 			eng.MaxAlloc = in.MaxAlloc
 		}
+		eng.SetRedirects(p.Redirects, in.Redirects)
 		inCopy := in
 		eng.StopOn = func(v sym.Violation) bool { return matchKnown(known, p.ID, inCopy, v) == nil }
-		budget := 10 * time.Minute
+		budget := 20 * time.Minute
 		if tier == "thorough" {
-			budget = 40 * time.Minute
+			budget = 60 * time.Minute
 		}
 		eng.Deadline = time.Now().Add(budget)
 		sum := eng.Run(h, workers)
@@ -612,6 +611,7 @@ func translatorValidation(eng *sym.Engine, p *Property, insts []Instance, tier s
 			h := eng.FindFunc(modPath + in.Pkg + "." + in.Fn)
 			eng.Params = in.Params
 			eng.MaxAlloc = 1 << 20
+			eng.SetRedirects(p.Redirects, in.Redirects)
 			res, eerr := eng.RunConcrete(h, inputs)
 			if eerr != "" {
 				fmt.Println("  concrete-mode engine error:", eerr)
